@@ -945,6 +945,119 @@ let suite_e2e t v =
   v.cls <- (if profile = "mutate" then "F" else "D");
   v.nontrivial <- fi "tx_calls" >= 2
 
+
+(* ============================ suite F : configuration (C19) ================== *)
+let backoff_table = [| 0; 0; 20000000; 5000000; 9999999; 32500000 |]   (* x 1e7 *)
+let fmt6_z (v : M.z) : M.z = (* "%f" keeps 6 decimals: round x1e7 to a multiple of 10 *)
+  let i = int_of_z v in z_of_int (((i + 5) / 10) * 10)
+
+let suite_conf t v =
+  let _fmt = ni t in
+  let ns = ni t in
+  let srcs = times ns (fun () ->
+    let threads = ni t in let minage = ni t in let compress = ni t in let pollatt = ni t in let outdir = ni t in
+    let ht = ni t in let tkey = ni t in let tdgram = ni t in let tport = ni t in
+    let stat = ni t in let hidden = ni t in let backoff = ni t in let incl = ni t in let ignr = ni t in
+    let nt = ni t in
+    let tags = times nt (fun () -> let a = ni t in let b = ni t in let c = ni t in let d = ni t in let e = ni t in (a, b, c, d, e)) in
+    (threads, minage, compress, pollatt, outdir, ht, tkey, tdgram, tport, stat, hidden, backoff, incl, ignr, tags)) in
+  expect t "=";
+  if peek t = "ERR" then (diff v "parse-error"; v.cls <- "D") else begin
+  let rd_eff () = times ns (fun () ->
+    let pl = times 8 (fun () -> ni t) in
+    let stat = ni t in let hidden = ni t in let backoff = ni t in let incl = ni t in
+    let nt = ni t in
+    let tags = times nt (fun () -> let a = ni t in let b = ni t in let c = ni t in let d = ni t in let e = ni t in ([a; b; c; d], e)) in
+    (pl, stat, hidden, backoff, (if incl = 9 then 0 else incl), tags)) in
+  let ieff = rd_eff () in
+  expect t "|";
+  let ieff2 = if peek t = "ERR" then (diff v "reencode-error"; []) else rd_eff () in
+  let dec c = if c >= 1 then c - 1 else 0 in
+  let docs = List.map (fun (threads, minage, compress, pollatt, outdir, ht, tkey, tdgram, tport, stat, hidden, backoff, incl, ignr, _) ->
+    let tk, td, tp = if ht = 1 then (tkey, (if tdgram = 1 then 1 else 0), dec tport) else (0, 0, 0) in
+    let inc = if incl > 0 then incl else if ignr > 0 then 9 else 0 in
+    { M.d_plain = List.map z_of_int [dec threads; dec minage; dec compress; dec pollatt; outdir; tk; td; tp; inc];
+      d_stat = z_of_int stat; d_hidden = z_of_int hidden;
+      d_backoff = (if backoff = 0 then None else Some (z_of_int backoff_table.(backoff))) }) srcs in
+  let show_src (c : M.src_conf) =
+    let pl = List.map int_of_z c.M.c_plain in
+    let p8 = List.filteri (fun i _ -> i < 8) pl in
+    let inc = List.nth pl 8 in
+    (p8, (if c.M.c_stat then 1 else 0), (if c.M.c_hidden then 1 else 0), int_of_z c.M.c_backoff, (if inc = 9 then 0 else inc)) in
+  let meff = List.map show_src (M.effective docs) in
+  let meff2 = List.map show_src (M.reencode fmt6_z docs) in
+  (* tags: a source without tags inherits the (propagated) list of its predecessor *)
+  let mtags = ref [] in
+  let prev_tags = ref [] in
+  List.iter (fun (_, _, _, _, _, _, _, _, _, _, _, _, _, _, tags) ->
+    let eff = if tags = [] then !prev_tags
+      else List.map (fun (tc : M.tag_conf) -> (List.map int_of_z tc.M.tc_plain, (if tc.M.tc_delete then 1 else 0)))
+             (M.propagate_tags (List.map (fun (a, b, c, d, e) ->
+                M.parse_tag { M.td_plain = List.map z_of_int [dec a; b; c; dec d]; td_delete = z_of_int e }) tags)) in
+    mtags := !mtags @ [eff]; prev_tags := eff) srcs;
+  let strip (pl, st, hd, bo, inc, _) = (pl, st, hd, bo, inc) in
+  List.iteri (fun i (ie, me) -> if strip ie <> me then diff v ("source@" ^ string_of_int i)) (List.combine ieff meff);
+  List.iteri (fun i ((_, _, _, _, _, it), mt) -> if it <> mt then diff v ("tags@" ^ string_of_int i)) (List.combine ieff !mtags);
+  if ieff2 <> [] then begin
+    List.iteri (fun i (ie, me) -> if strip ie <> me then diff v ("reencoded@" ^ string_of_int i)) (List.combine ieff2 meff2);
+    (* oracle: re-encoding does not change the effective configuration *)
+    if List.map strip ieff2 <> List.map strip ieff || List.map (fun (_, _, _, _, _, x) -> x) ieff2 <> List.map (fun (_, _, _, _, _, x) -> x) ieff then
+      oracle v "reencoding_changes_configuration" (meff2 <> meff);
+    if meff2 <> meff then v.model_fails <- true
+  end;
+  (* oracles: omitted options inherit, explicit ones are kept *)
+  let finding = ref false in
+  List.iteri (fun i ((threads, minage, compress, pollatt, outdir, ht, tkey, tdgram, tport, stat, hidden, backoff, incl, ignr, _), (ipl, ist, ihd, ibo, iinc, _)) ->
+    let prev = if i = 0 then None else Some (List.nth ieff (i - 1)) in
+    let mpl, mst, mhd, mbo, minc = List.nth meff i in
+    let codes = [threads; minage; compress; pollatt; (if outdir > 0 then outdir + 1 else 0);
+                 (if ht = 1 && tkey > 0 then tkey + 1 else 0); (if ht = 1 then (match tdgram with 1 -> 2 | 2 -> 1 | _ -> 0) else 0);
+                 (if ht = 1 then tport else 0)] in
+    List.iteri (fun k code ->
+      let got = List.nth ipl k and mgot = List.nth mpl k in
+      let inherited = (match prev with Some (ppl, _, _, _, _, _) -> List.nth ppl k | None -> 0) in
+      if code >= 2 && got <> code - 1 then oracle v "explicit_value_overridden" (mgot = got);
+      if code = 0 && got <> inherited then oracle v "omitted_option_not_inherited" (mgot = got);
+      if code = 1 && got <> 0 then begin finding := true; oracle v "explicit_zero_or_false_overridden_no_marker" (mgot = got) end) codes;
+    let pst, phd, pbo, pinc = (match prev with Some (_, a, b, c, d, _) -> (a, b, c, d) | None -> (0, 0, 0, 0)) in
+    (match stat with
+     | 1 -> if ist <> 1 then oracle v "explicit_value_overridden" (mst = ist)
+     | 2 -> if ist <> 0 then oracle v "explicit_false_overridden" (mst = ist)
+     | _ -> if ist <> pst then oracle v "omitted_option_not_inherited" (mst = ist));
+    (match hidden with
+     | 1 -> if ihd <> 1 then oracle v "explicit_value_overridden" (mhd = ihd)
+     | 2 -> if ihd <> 0 then begin finding := true; oracle v "explicit_false_include_hidden_overridden" (mhd = ihd) end
+     | _ -> if ihd <> phd then oracle v "omitted_option_not_inherited" (mhd = ihd));
+    (if backoff > 0 then (if ibo <> backoff_table.(backoff) then oracle v "explicit_value_overridden" (mbo = ibo))
+     else if ibo <> pbo then oracle v "omitted_option_not_inherited" (mbo = ibo));
+    (if incl > 0 then (if iinc <> incl then oracle v "explicit_value_overridden" (minc = iinc))
+     else if iinc <> pinc then begin
+       if ignr > 0 then begin finding := true; oracle v "omitted_include_not_inherited_when_ignore_given" (minc = iinc) end
+       else oracle v "omitted_option_not_inherited" (minc = iinc) end))
+    (List.combine srcs ieff);
+  (* tags: explicit delete=false kept, omitted inherits the default tag's *)
+  List.iteri (fun i ((_, _, _, _, _, _, _, _, _, _, _, _, _, _, tags), (_, _, _, _, _, itags)) ->
+    if tags <> [] && List.length itags = List.length tags then begin
+      let (_, ddel) = List.hd itags in
+      List.iteri (fun j ((prio, order, chunk, ldelay, del), (ipl, idel)) ->
+        if j > 0 then begin
+          (match del with
+           | 1 -> if idel <> 1 then oracle v "explicit_value_overridden" false
+           | 2 -> if idel <> 0 then oracle v "explicit_false_overridden" false
+           | _ -> if idel <> ddel then oracle v "omitted_option_not_inherited" false);
+          let (dpl, _) = List.hd itags in
+          List.iteri (fun k code ->
+            let got = List.nth ipl k and dv = List.nth dpl k in
+            let own = (match k with 0 | 3 -> code - 1 | _ -> code) in
+            if (match k with 0 | 3 -> code >= 2 | _ -> code >= 1) then (if got <> own then oracle v "explicit_value_overridden" false)
+            else if (match k with 0 | 3 -> code = 1 | _ -> false) then (if got <> 0 then begin finding := true; oracle v "explicit_zero_or_false_overridden_no_marker" true end)
+            else if got <> dv then oracle v "omitted_option_not_inherited" false) [prio; order; chunk; ldelay]
+        end) (List.combine tags itags)
+    end; ignore i) (List.combine srcs ieff);
+  v.cls <- (if !finding || v.model_fails then "F" else "D");
+  v.nontrivial <- ns >= 2
+  end
+
 (* ============================ dispatch ====================================== *)
 let run_line line =
   let t = mk line in
@@ -958,6 +1071,7 @@ let run_line line =
       | "S" -> suite_stage t v
       | "T" -> suite_send t v
       | "E" -> suite_e2e t v
+      | "F" -> suite_conf t v
       | "LC" -> suite_log_conc t v
       | s -> raise (Malformed ("unknown suite " ^ s)))
    with
